@@ -2314,6 +2314,8 @@ class Model:
                         G.add_edge(dep, par.name)
                 if par.pop_aggregation and par.pop_aggregation[1] in par_derivative and par_derivative[par.pop_aggregation[1]] != "y":
                     G.add_edge(par.pop_aggregation[1], par.name)
+                if par.pop_aggregation and len(par.pop_aggregation) > 3 and par.pop_aggregation[3] in par_derivative and par_derivative[par.pop_aggregation[3]] != "y":
+                    G.add_edge(par.pop_aggregation[3], par.name)  # The weighting variable of an aggregation is a dependency as well, if it is a parameter
 
                 if par._is_dynamic or (self.progset and par.name in self.progset.pars):
                     # If the parameter is dynamic or appears in the progset, then we need to
